@@ -338,7 +338,10 @@ def mon_c02(hs, prev, op, ok, trace, cur, known):
     if not (t[0] == 'hub' and t[2] == 'withdraw'):
         if not (t[0] == 'reward' and t[2] == 'claim' and t[3] == 'hub') and t[0] in ('bond', 'hub', 'cw', 'reg', 'reward', 'disp'):
             a, b = bank(prev, 'hub', 'usei'), bank(cur, 'hub', 'usei')
-            if a != b:
+            wd = {x[0]: x[1] for x in prev.all('wdaddr')}
+            # an increase is possible only when the hub's staking rewards are paid to the hub itself
+            # (withdraw address not yet set to the dispatcher: outside E4); a decrease never is
+            if b < a or (b > a and wd.get('hub') == 'disp'):
                 return ('violation', 'hub liquid balance changed from %d to %d in %r' % (a, b, op))
     return None
 
